@@ -19,7 +19,7 @@ TRUSTED_BASE = [
     "Lean 4.33.0 kernel",
     "axioms: every audited theorem depends on at most propext, Classical.choice, Quot.sound (the audit would list a *._native.bv_decide.ax_* axiom per theorem if one appeared; none does)",
     "tools/extract.py copies constants/tables from the Rust source into lean/Wee/Gen (fails closed on a missing pattern)",
-    "tools/rs2lean.py translates the straight-line bit-level functions (moves.rs mod compact and Move constructors/accessors, Square helpers, Evaluation::mate_in_ply/is_terminal) into lean/Wee/Gen/MoveFns.lean; trusted: its parser and the table of primitive mappings in tools/rs2lean.NOTES.md; the bridge to the hand model is proved (Wee/Proofs/MoveFnsBridge.lean); stage 2 (tools/rs2lean2.py → Wee/Gen/CoreFns.lean, bridge Wee/Proofs/CoreFnsBridge.lean): impl BitBoard, Board::new and occupancy accessors, CastleRights, State::by_performing_move, ZobristHasher::hash, AttackGenerator lookups and leaper tables; new trusted primitives: trailing_zeros/leading_zeros/count_ones (proved equal to the model's), wrapping_mul, saturating_add; stage 3a (tools/rs2lean3.py → Wee/Gen/GenMoves.lean, bridges Wee/Proofs/GenMovesBridge*.lean): all of movegen.rs incl. generation order and the legality filter (compute_legal_moves_model), AttackMap::from_occupancy, Board::piece_at/is_check/colored_attacks with the OnceCell read as compute-on-demand; stage 3b (tools/rs2lean_eval.py → Wee/Gen/EvalFns.lean, Wee/Proofs/EvalFnsBridge.lean): evaluator term functions bridged (f32 = the model's binary32 soft-float, literals as exact bit patterns); Evaluator::evaluate and estimate, king-edge and StateVariation::from bridged too, with the move-generation and attack queries discharged by the stage-3a bridges (Evaluator.evaluate_eq: when the translated function returns r the model returns r; for plies < 2^31); stage 3c (tools/rs2lean_tt.py → Wee/Gen/TTFns.lean, Wee/Proofs/TTFnsBridge.lean): TranspositionBucket/Table/TableAccess, iter_moves, StateHistory — RwLock read as atomic application, HashMap as an abstract finite map, size_of computed by layout rules (320), cfg(weechess_verif) hook calls skipped by rule; stage 3d (tools/rs2lean_text.py → Wee/Gen/TextFns.lean, Wee/Proofs/TextFnsBridge.lean): all of notation.rs translated (strings as List Char, write! as appends, the regex match a seam parameter); all bridged (TextFnsBridge, TextFnsBridge2): FEN writer and reader (composition with the model's fenPipeline), SAN scanner, MoveQuery::test, LAN, the move-token reader of uci.rs; stage 4a (tools/rs2lean_search.py → Wee/Gen/SearchFns.lean, Wee/Proofs/SearchFnsBridge.lean): quiescence_search bridged to the model's quiesce (refinement: when the translated run returns, the model run returns the same in the corresponding state), analyze_recursive translated whole and bridged completely (Searcher.analyze_recursive_refines), the iteration loop of analyze_iterative bridged to iterLoop for the sequential schedule (SearchIterBridge) — trusted readings: the rayon map as running the workers one after the other, sort_by_cached_key as a stable sort with keys computed once in list order, gen_range as the ChaCha8 model, is_cancelled as the counted poll of the hook; stage 4b (tools/rs2lean_book.py → Wee/Gen/BookFns.lean, Wee/Proofs/BookFnsBridge.lean): parse_movetext, generate_book_data and OpeningBook::lookup bridged to the model's buildBook/lookup — trusted: the I/O frame of build.rs (directory = list of file contents, serialisation = identity), lazy iterators as a first-order value; stage 4c (tools/rs2lean_uci.py → Wee/Gen/UciFns.lean, Wee/Proofs/UciFnsBridge.lean): the UCI command loop Client::exec (all ten arms) bridged to the session model (Client.exec.body_refines per line, Client.exec_refines per history) — seams: stdout/stderr as an event log, stdin as the list of lines, Search::spawn / wait_cancel as events with an unknown outcome stream (their text pinned by digests), thread_rng, State::by_performing_moves — translated in stage 5 (tools/rs2lean_seams.py → Wee/Gen/SeamFns.lean, Wee/Proofs/SeamFnsBridge.lean: State.by_performing_moves_eq, Client.exec_refines_resolved with no resolver hypothesis left)",
+    "tools/rs2lean.py translates the straight-line bit-level functions (moves.rs mod compact and Move constructors/accessors, Square helpers, Evaluation::mate_in_ply/is_terminal) into lean/Wee/Gen/MoveFns.lean; trusted: its parser and the table of primitive mappings in tools/rs2lean.NOTES.md; the bridge to the hand model is proved (Wee/Proofs/MoveFnsBridge.lean); stage 2 (tools/rs2lean2.py → Wee/Gen/CoreFns.lean, bridge Wee/Proofs/CoreFnsBridge.lean): impl BitBoard, Board::new and occupancy accessors, CastleRights, State::by_performing_move, ZobristHasher::hash, AttackGenerator lookups and leaper tables; new trusted primitives: trailing_zeros/leading_zeros/count_ones (proved equal to the model's), wrapping_mul, saturating_add; stage 3a (tools/rs2lean3.py → Wee/Gen/GenMoves.lean, bridges Wee/Proofs/GenMovesBridge*.lean): all of movegen.rs incl. generation order and the legality filter (compute_legal_moves_model), AttackMap::from_occupancy, Board::piece_at/is_check/colored_attacks with the OnceCell read as compute-on-demand; stage 3b (tools/rs2lean_eval.py → Wee/Gen/EvalFns.lean, Wee/Proofs/EvalFnsBridge.lean): evaluator term functions bridged (f32 = the model's binary32 soft-float, literals as exact bit patterns); Evaluator::evaluate and estimate, king-edge and StateVariation::from bridged too, with the move-generation and attack queries discharged by the stage-3a bridges (Evaluator.evaluate_eq: when the translated function returns r the model returns r; for plies < 2^31); stage 3c (tools/rs2lean_tt.py → Wee/Gen/TTFns.lean, Wee/Proofs/TTFnsBridge.lean): TranspositionBucket/Table/TableAccess, iter_moves, StateHistory — RwLock read as atomic application, HashMap as an abstract finite map, size_of computed by layout rules (320), cfg(weechess_verif) hook calls skipped by rule; stage 3d (tools/rs2lean_text.py → Wee/Gen/TextFns.lean, Wee/Proofs/TextFnsBridge.lean): all of notation.rs translated (strings as List Char, write! as appends, the regex match a seam parameter); all bridged (TextFnsBridge, TextFnsBridge2): FEN writer and reader (composition with the model's fenPipeline), SAN scanner, MoveQuery::test, LAN, the move-token reader of uci.rs; stage 4a (tools/rs2lean_search.py → Wee/Gen/SearchFns.lean, Wee/Proofs/SearchFnsBridge.lean): quiescence_search bridged to the model's quiesce (refinement: when the translated run returns, the model run returns the same in the corresponding state), analyze_recursive translated whole and bridged completely (Searcher.analyze_recursive_refines), the iteration loop of analyze_iterative bridged to iterLoop for the sequential schedule (SearchIterBridge) — trusted readings: the rayon map as running the workers one after the other, sort_by_cached_key as a stable sort with keys computed once in list order, gen_range as the ChaCha8 model, is_cancelled as the counted poll of the hook; stage 4b (tools/rs2lean_book.py → Wee/Gen/BookFns.lean, Wee/Proofs/BookFnsBridge.lean): parse_movetext, generate_book_data and OpeningBook::lookup bridged to the model's buildBook/lookup — trusted: the I/O frame of build.rs (directory = list of file contents, serialisation = identity), lazy iterators as a first-order value; stage 4c (tools/rs2lean_uci.py → Wee/Gen/UciFns.lean, Wee/Proofs/UciFnsBridge.lean): the UCI command loop Client::exec (all ten arms) bridged to the session model (Client.exec.body_refines per line, Client.exec_refines per history) — seams: stdout/stderr as an event log, stdin as the list of lines, Search::spawn / wait_cancel as events with an unknown outcome stream (their text pinned by digests), thread_rng, State::by_performing_moves — translated in stage 5 (tools/rs2lean_seams.py → Wee/Gen/SeamFns.lean, Wee/Proofs/SeamFnsBridge.lean: State.by_performing_moves_eq, Client.exec_refines_resolved with no resolver hypothesis left); stage 6 (tools/rs2lean_iterate.py → Wee/Gen/IterateFns.lean, Wee/Proofs/IterateFnsBridge.lean): the artifact set-up, the F2 rule, the history increment, the saturation warning and the returned artifact of analyze_iterative — Searcher.analyze_iterative_refines bridges the whole function to the model's iterate for a given depth limit; trusted: ZobristHasher::with = KeyTable.ofRng (its text pinned), carried hypotheses: WalkOK invariant, agreement of the f32 saturation test with the model's exact one",
     "correspondence check: hand-written executable Lean model vs the real Rust code on generated inputs (differential; as strong as the generators)",
     "Wee/Spec/*.lean is the reading of what the property means",
     "modelled, not verified: std (RwLock, channels, sort_by_cached_key, OnceCell, str slicing), rayon, the regex crate's conformance to Wee/Spec/Regex.lean on the one FEN literal, rand/rand_chacha, ciborium, rustc `as` casts and overflow-check semantics, IEEE-754 binary32 of the CPU",
@@ -64,6 +64,7 @@ TRANSLATOR_SCOPE = {
     "rs2lean_book.py": {"C07", "C16"},
     "rs2lean_uci.py": {"C07", "C14", "C18"},
     "rs2lean_seams.py": {"C02", "C07", "C14", "C18"},
+    "rs2lean_iterate.py": {"C03", "C04", "C06", "C07", "C17", "C18", "C19"},
 }
 TRANSLATOR_FAILURES = {}
 
@@ -123,7 +124,10 @@ def step_extract():
                       ("rs2lean_uci.py", "UciFns.lean"),
                       # stage 5 (tools/rs2lean_seams.py): State::by_performing_moves (the coordinate resolver) → Wee/Gen/SeamFns.lean,
                       # bridged to the model's performQueries; discharges the resolver seam of stage 4c (Client.exec_refines_resolved)
-                      ("rs2lean_seams.py", "SeamFns.lean")):
+                      ("rs2lean_seams.py", "SeamFns.lean"),
+                      # stage 6 (tools/rs2lean_iterate.py): the set-up and tail of analyze_iterative around its loop → Wee/Gen/IterateFns.lean;
+                      # Searcher.analyze_iterative_refines bridges the WHOLE function to the model's `iterate` (Some depth limit)
+                      ("rs2lean_iterate.py", "IterateFns.lean")):
         g = os.path.join(LEAN, "Wee", "Gen", rel)
         b = open(g).read() if os.path.exists(g) else ""
         rc4, out4, err4 = run([sys.executable, os.path.join(VERIF, "tools", tool)])
